@@ -22,12 +22,12 @@ def load_all() -> None:
 
 # property -> rule ids (DESIGN.md section 0 / 6)
 PROPERTY_RULES: Dict[str, List[str]] = {
-    "C01": ["STORE-4", "STORE-5", "STORE-6", "STORE-7", "CTRL-1", "CTRL-2", "CTRL-5", "CTRL-9", "CTRL-10", "ORD-3"],
+    "C01": ["STORE-4", "STORE-5", "STORE-6", "STORE-7", "CTRL-1", "CTRL-2", "CTRL-5", "CTRL-9", "CTRL-10", "CTRL-11", "ORD-3"],
     "C02": ["STORE-5", "TOTAL-3", "TOTAL-4"],
     "C03": ["CTRL-5", "CTRL-6", "STORE-8", "DISP-6"],
     "C04": ["STORE-6", "STORE-7", "STORE-8", "DISP-9", "NAME-3", "NAME-4"],
     "C05": ["STORE-1", "STORE-2", "STORE-3", "STORE-4", "ORD-3"],
-    "C06": ["CTRL-1", "CTRL-2", "CTRL-3", "CTRL-4", "CTRL-8", "CTRL-9", "CTRL-10", "STORE-5"],
+    "C06": ["CTRL-1", "CTRL-2", "CTRL-3", "CTRL-4", "CTRL-8", "CTRL-9", "CTRL-10", "CTRL-11", "STORE-5"],
     "C07": ["DISP-5", "DISP-6", "CTRL-7", "LOWER-6", "LOWER-7", "LOWER-8", "LOWER-9", "STORE-10"],
     "C08": ["LOWER-1", "LOWER-2", "LOWER-3", "LOWER-4", "LOWER-6", "STORE-10"],
     "C09": ["TABLE-1", "TABLE-2", "TABLE-3", "TABLE-4"],
